@@ -200,3 +200,57 @@ Print Assumptions C13_header_comment_positions.
 Theorem C13_fields_simple_lex_ok : forall f, fields_simple f = true -> fields_lex_ok f = true.
 Proof. exact fields_simple_lex_ok. Qed.
 Print Assumptions C13_fields_simple_lex_ok.
+
+(* ---- the parser half of file -> trace for the header, and the accept direction END TO END at file level for the modelled
+   part of the engine (Proofs/HeaderTurns.v): IsComment.run and the first test of IsPreprocessorStatement.run are translated
+   from the source on every run (Gen/IsComment.v); on the header's tokens the first 11 turns of the registry loop are
+   IsComment matches of 2 tokens, CheckHeader runs on each, and for ALL fields (fields_lex_ok, stamps_ok), ALL following
+   text and ALL later turns no INVALID_HEADER is emitted.  Hypothesis `induced`: the oracle of Model/Engine.v agrees with the
+   token-level turn wherever the turn is decided by the translated primaries (compared on every run). *)
+From NV Require Import Model.RuleChecks Model.EngineTok0 Model.Engine Model.RegistryOrder Gen.Registry Gen.IsComment Model.EngineTok Proofs.HeaderTurns.
+Theorem C13_iscomment_matches_comment_line : forall (t1 t2 : token) rest,
+  t_type t1 = MULT_COMMENT -> t_type t2 = NEWLINE -> iscomment_run (t1 :: t2 :: rest) = (true, 2).
+Proof. exact iscomment_matches_comment_line. Qed.
+Print Assumptions C13_iscomment_matches_comment_line.
+
+Theorem C13_earlier_primaries_do_not_match :
+  (exists r, primaries_order = s "IsPreprocessorStatement" :: s "IsComment" :: r) /\
+  forall (t1 : token) rest, t_type t1 = MULT_COMMENT -> ispreproc_prefix (t1 :: rest) = Some (false, 0).
+Proof. split; [exact order_head|exact earlier_primaries_do_not_match]. Qed.
+Print Assumptions C13_earlier_primaries_do_not_match.
+
+Theorem C13_turn_on_comment_line : forall (t1 t2 : token) rest,
+  t_type t1 = MULT_COMMENT -> t_type t2 = NEWLINE ->
+  turn primaries_order (t1 :: t2 :: rest) = Some (Matched (s "IsComment") 2).
+Proof. exact turn_on_comment_line. Qed.
+Print Assumptions C13_turn_on_comment_line.
+
+Theorem C13_checkheader_runs_on_iscomment : str_in (s "CheckHeader") (checks_run_on (s "IsComment")) = true.
+Proof. exact checkheader_runs_on_iscomment. Qed.
+Print Assumptions C13_checkheader_runs_on_iscomment.
+
+Theorem C13_header_turns : forall f X oracle, induced oracle (tokens_of (comment_items 0 1 (template_mids f)) ++ X) ->
+  (forall k, (k < 11)%nat -> oracle k = Matched (s "IsComment") 2) /\
+  remaining oracle (tokens_of (comment_items 0 1 (template_mids f)) ++ X) 11 = X /\
+  forall m, events_upto oracle (tokens_of (comment_items 0 1 (template_mids f)) ++ X) (11 + m) =
+            header_events f ++ events_range oracle (tokens_of (comment_items 0 1 (template_mids f)) ++ X) 11 m.
+Proof. exact header_turns. Qed.
+Print Assumptions C13_header_turns.
+
+Theorem C13_file_accept : forall uw ud f src items xf items' xf' oracle n,
+  fields_lex_ok f = true -> stamps_ok f = true ->
+  lex uw ud src = Ok (items, xf) ->
+  lex uw ud (lines_text (template f) ++ src) = Ok (items', xf') ->
+  induced oracle (tokens_of items') ->
+  count_code INVALID_HEADER (run_from ctx_init (events_upto oracle (tokens_of items') n)) = 0%nat.
+Proof. exact file_accept. Qed.
+Print Assumptions C13_file_accept.
+
+Theorem C13_engine_ties :
+  eol_fingerprint = "9a0c1c8b8c7f30bfd678"%string /\
+  registry_primary_loop =
+    ["if rule.scope and context.scope not in rule.scope:     continue"%string;
+     "ret, jump = self.run_rules(context, rule)"%string;
+     "if ret is True: ... context.pop_tokens(jump); break"%string].
+Proof. split; [exact eol_pinned|exact registry_loop_pinned]. Qed.
+Print Assumptions C13_engine_ties.
